@@ -103,7 +103,9 @@ TIERS = {
 
 
 def _site(loc, msg):
-    s = "%s|%s" % (loc or "?", " ".join((msg or "").split())[:90])
+    # the site is the source file + message; line numbers are dropped so that keys survive unrelated edits of the file
+    loc = re.sub(r":\d+$", "", loc or "?")
+    s = "%s|%s" % (loc, " ".join((msg or "").split())[:90])
     return s.encode("ascii", "replace").decode("ascii")
 
 
